@@ -724,7 +724,10 @@ func (i *Interpreter) callCallable(fn interface{}, args []interface{}) (interfac
 	case *LambdaClosure:
 		return i.callLambdaClosure(f, args)
 	case Function:
-		fnEnv := NewChildEnvironment(NewEnvironment())
+		// a child of the environment functions are defined in, as for a direct
+		// call: below an empty environment a named function used as a callback
+		// (map(xs, addLimit)) could not see module-level constants
+		fnEnv := NewChildEnvironment(i.globalEnv)
 		for idx, param := range f.Params {
 			if idx < len(args) {
 				fnEnv.Define(param.Name, args[idx])
